@@ -728,6 +728,9 @@ def addressing_program(h, w, zones=8):
         what = ch.pick(['zone', 'inline', 'block', 'block-loop'], [2, 3, 3, 1])
         if what == 'zone':
             z = rng(zones, True)
+            if ch.flag(0.2):
+                # a range written backwards down to zone 0: an explicit 0 is an end like any other, not "no end given"
+                z = (bound(1, zones - 1), N(value=0))
             ops = [R.Operand('light', R.Str('Z'), zone=z)]
             if ch.flag(0.3):
                 ops.append(R.Operand('light', R.Str('A')))
